@@ -10,7 +10,7 @@ TRUST = ("Trusted: TLC; the replay driver and projection in harness/checks; Pyth
          "Exhaustive only within the stated bounds of the TLC instance; beyond them seeded generation.")
 
 # id -> (spec modules, technique, level text, design ref)
-MB = ('TLA+ spec ModelBuild.tla (declaration + main() pipeline of every sector kind, ledgers as bags of signed monomials) model-checked by TLC over the blueprint family and all declaration orders (identities evaluated in Z_10007); TLC-generated (blueprint, order) behaviours rebuilt with the real classes, solved exactly over Fractions and validated by TLC against ModelBuild_Trace.tla')
+MB = ('TLA+ spec ModelBuild.tla (declaration + main() pipeline of every sector kind, ledgers as bags of signed monomials) model-checked by TLC over the blueprint family and all declaration orders (identities evaluated in Z_10007); TLC-generated (blueprint, order) behaviours rebuilt with the real classes, solved exactly over Fractions and validated by TLC against ModelBuild_Trace.tla; every model built by the repository\'s own example scripts is harvested at run time and judged by the same trace spec (event Harvested)')
 
 CHECKS = {
     'C01': (['ModelBuild', 'ModelBuild_Trace'], MB,
@@ -92,6 +92,7 @@ CHECKS = {
             'declarations) model-checked by TLC; control behaviours and declaration sequences replayed on the real solver / '
             'model classes; events validated by TLC against Solver_Trace.tla and Reject_Trace.tla',
             'TLC enumerates failing and succeeding period sequences (C11_BoundedSweeps, C11_FailureRaises, C11_PrefixIntact, '
+            'liveness C11_Terminates under weak fairness with the uncapped loop as TLC\'s lasso, '
             'C11_EqualLengthsAfterFailure) and every invalid declaration position; the real code must raise the right error class '
             'within cap+1 sweeps with earlier periods intact, solve every sup-norm contraction (<=0.8) within the default cap, and '
             'reject every reserved name / duplicate / ill-formed declaration before numbers exist.',
@@ -100,13 +101,13 @@ CHECKS = {
             'TLA+ spec Equation.tla model-checked exhaustively by TLC; every TLC-generated behaviour replayed on the real '
             'Equation/Term/create_equation_from_terms; recorded executions validated by TLC against Equation_Trace.tla',
             'All histories Start(kind,lead); AddTerm^n (n<=2 quick, <=3 thorough) and all term lists (<=2/<=3) of the bounded '
-            'instance are enumerated by TLC, the invariants C12_* hold in every state, and every behaviour is executed on the '
+            'instance (plus Term objects with weights half / one / one and a half, re-used across two equations) are enumerated by TLC, the invariants C12_* hold in every state, and every behaviour is executed on the '
             'real classes with the rendered text evaluated on two integer valuations; TLC judges each observed trace.',
             'DESIGN.md section 6 C12'),
     'C13': (['Tokens', 'Tokens_Trace'],
             'TLA+ spec Tokens.tla (token-level grammar, simultaneous substitution) model-checked by TLC; TLC-generated '
-            '(expression, map) behaviours rendered in three spacings and passed to the real replace_token / '
-            'replace_token_from_lookup / list_tokens; results re-tokenised and validated by TLC against Tokens_Trace.tla',
+            '(expression, map) behaviours rendered in six layouts and passed to the real replace_token / '
+            'replace_token_from_lookup / list_tokens and, through the callers named in the anchor, to Equation / EquationBlock.ReplaceTokensFromLookup; results re-tokenised and validated by TLC against Tokens_Trace.tla',
             'All expressions of the bounded grammar and all partial maps (swaps, chains, merges) are enumerated by TLC with the '
             'C13_* invariants; every behaviour is executed on the real functions and judged token by token and by value.',
             'DESIGN.md section 6 C13'),
